@@ -18,7 +18,7 @@ class C04(Check):
     id = "C04"
     level = "exploration"
     rule = (
-        "Domain: fixtures of every dialect (pinned slice; Hypothesis-chosen unmutated / with 1-3 drawn mutation "
+        "Domain: a fixed, seed-independent backbone (fixture slice of every dialect, fixed mutants, fixed generated templates/queries, stress inputs) plus Hypothesis-chosen fixtures (unmutated / with 1-3 drawn mutation "
         "operators), arbitrary Unicode and SQL-ish text, generated valid queries, generated jinja (incl. undefined "
         "variables), python-format (incl. invalid strings) and placeholder templates, stress inputs (bracket/CASE/"
         "function/subquery nesting to depth 700 quick / 3000 thorough, unbalanced brackets, wide select lists, long "
@@ -35,9 +35,8 @@ class C04(Check):
                    "(C22), counted as excluded"]
 
     def pinned(self, tier):
-        n = 2 if tier == "quick" else 20
-        for i, c in enumerate(gens.corpus_slice(n, maxsize=500 if tier == "quick" else 1500, offset=1)):
-            c.update(templater="raw", rules="all", rule_options={}, fix=bool(i % 2), entry="all")
+        for c in lintlib.pinned_lint_cases(tier, per_dialect=3, mutants_per_dialect=4, templates=100, salt=4):
+            c["entry"] = "all" if c.get("origin", "").startswith("fixed") else "lint_string"
             yield c
         for kind in ("brackets", "unbalanced", "case", "subquery", "functions"):
             for n_, limits in ((12, {}), (45, {}), (400, {}), (650, {}), (1500, {}), (100, {"max_parse_depth": 20}),
@@ -53,7 +52,7 @@ class C04(Check):
             lambda t: dict(t[0], cli=(t[2] if t[1] == 0 else None), stdin=t[3], entry=t[4]))
 
     def examples(self, tier):
-        return 90 if tier == "quick" else 3000
+        return 35 if tier == "quick" else 1500
 
     def run_case(self, case):
         import sqlfluff
@@ -127,6 +126,11 @@ class C04(Check):
         src = Linter._normalise_newlines(case["sql"])
         r = guard(lambda: list(lnt.templater.process_with_variants(in_str=src, fname="t.sql", config=cfg, formatter=None)))
         if isinstance(r, Crash) and r.type == "SQLFluffSkipFile":
+            # the three consistency checks of TemplatedFile.__init__ are one root cause: the templater produced
+            # slices that do not tile its own output
+            if any(k in r.msg for k in ("Length of templated file mismatch", "Templated slices found to be non-contiguous",
+                                        "First Templated slice not started at index")):
+                return "silent-skip", "templated-file-consistency"
             return "silent-skip", re.sub(r"[0-9]+", "N", r.msg)[:48]
         return "silent-no-tree", "-"
 
